@@ -2,13 +2,6 @@ import os
 os.environ['XLA_FLAGS']='--xla_force_host_platform_device_count=8'
 import itertools, numpy as np, jax, jax.numpy as jnp, time
 from jax.sharding import Mesh, NamedSharding, PartitionSpec as P
-def device_put_replicated(x, devices):
-    sh = NamedSharding(Mesh(np.array(devices), ('i',)), P('i'))
-    return jax.tree_util.tree_map(lambda a: jax.device_put(jnp.stack([jnp.asarray(a)]*len(devices)), sh), x)
-def device_put_sharded(shards, devices):
-    sh = NamedSharding(Mesh(np.array(devices), ('i',)), P('i'))
-    return jax.tree_util.tree_map(lambda *xs: jax.device_put(jnp.stack([jnp.asarray(a) for a in xs]), sh), *shards)
-jax.device_put_replicated = device_put_replicated; jax.device_put_sharded = device_put_sharded
 import fedjax
 from fedjax.core import for_each_client as fec
 def init(s, ci): return {'acc': s['w'] * ci['scale'], 'n': jnp.zeros((), jnp.int32), 'key': ci['key']}
